@@ -89,6 +89,8 @@ def make_case(family, i, rng, tier):
                           [4, 2, 2, 3, 2, 1, 0.3, 2, 1],
                           k=rng.choice([0, 0, 1, 2, 5]))
         case = {'tokens': ['good101'] + mid + ['hold'], 'faults': [],
+                'epoch': rng.choice([0, 1.7e9]),
+                'pongs': rng.choice([0, 0, 1, 3]),
                 'poll': rng.choice([5, 1, 0.25]),
                 'ping_rate': rng.choice([30, 0, 4])}
         if rng.random() < 0.5:
@@ -219,8 +221,11 @@ def build(case):
     conn['faults'] = faults
     if case.get('cuts'):
         conn['short_reads'] = {'*': 1 + case.get('cut_seed', 0) % 7}
+    if case.get('pongs'):
+        conn['react'] = {'pong': {'delay': 1000, 'limit': case['pongs']}}
     return {
         'url': 'ws://example.test/',
+        'epoch': case.get('epoch', 0),
         'connect': {'poll': case.get('poll', 5),
                     'ping_rate': case.get('ping_rate', 30),
                     'ping_timeout': case.get('ping_timeout'),
